@@ -6,7 +6,7 @@ from .. import dep
 from . import hashlib
 
 LEVEL = "other"
-MAP = {"CONSTR": None, "STREAM": "R-C11-STREAM", "INIT": "R-C11-INIT", "ONESHOT": "R-C11-ONESHOT"}
+MAP = {"CONSTR": None, "STREAM": "R-C11-STREAM", "INIT": "R-C11-INIT", "ONESHOT": "R-C11-ONESHOT", "SMALL": "R-C11-SMALL"}
 
 
 def run(ck, build):
@@ -15,6 +15,8 @@ def run(ck, build):
             "with the position 0, (c) the generic loop iteration compresses the next 16 input bytes and advances cursor/remaining in lock-step, (d) the 0..15 left-over bytes are stashed at buffer[0..r) "
             "with position r; finalize pads at the position and resets it. The abstract state (chaining value, buffered bytes, position) after a call is therefore a function of the concatenated "
             "stream only - induction over the sequence of calls gives split-independence")
+    ck.rule("R-C11-SMALL", "independent of the loop structure: for each of the 16 buffer positions and EVERY input length 0..48 (each one straight path with symbolic data) update compresses exactly "
+            "the complete 16-byte blocks of (buffered bytes || input), in order, and leaves the left-over bytes and the position of the stream machine; longer inputs are R-C11-STREAM's")
     ck.rule("R-C11-INIT", "tinyjambu_hash_init sets every field another hash function reads before writing (L, k[0..3], position) whatever the object held; reinit does the same")
     ck.rule("R-C11-ONESHOT", "tinyjambu_hash(out,in,inlen) is init; update(in,inlen); finalize(out); free on one local state")
     ck.rule("R-C11-ISOLATED", "hash functions touch only their state object, the input and the output (C19's census + whole-module points-to: no other object is written)")
@@ -27,7 +29,7 @@ def run(ck, build):
         return cond if r is None else ck.ob(cond, r, fn, cons, ok, bad, where=where)
     hashlib.run_init(ob, mod, "H/N0")
     hashlib.run_finalize(ob, mod, "H/N0")
-    hashlib.run_update(ob, mod, "H/N0")
+    hashlib.run_update_both(ck, ob, mod, "H/N0")
     ck.floor("R-C11", "obligations over hash path classes", len(ck.obligations), 300)
     # isolation: the hash functions have no global and write only through their parameters
     wg = hashlib.writable_globals_of(mod, lambda n: n.startswith("tinyjambu_hash"))
